@@ -82,6 +82,25 @@ def gen(chk, tier):
             cmds.append(dict(sc=k, op="gcm.aead", h="a", key=key_, noncesize=len(nonce), tagsize=ts, path="asm"))
             cmds.append(dict(sc=k, op="gcm.open", h="a", nonce=nonce, aad=aad, ct=bad_ct, prefix=[], spare=spare,
                              alias=alias, repeat=(alias == "none"), j="b"))
+    # prefix (len(dst)) length classes for the path that reallocates and copies the prefix, and for the path that
+    # appends in place: every length 0..72 and the neighbours of larger powers of two (the copy routines work in
+    # 16/8/4/2/1-byte stages)
+    (key_, nonce, aad, pt, ts), ct = (items[1], sealed[1])
+    plens = list(range(0, 73)) + [95, 96, 97, 127, 128, 129, 255, 256, 257, 1000, 1024]
+    if q:
+        plens = list(range(0, 41)) + [47, 48, 49, 63, 64, 65, 127, 128, 129, 256, 1000]
+    for plen in plens:
+        for op, outn, inp in (("gcm.seal", len(pt) + ts, pt), ("gcm.open", len(pt), ct)):
+            for grows in ((True, False) if (not q or plen % 4 == 0) else (True,)):
+                if grows and outn == 0:
+                    continue
+                spare = rng.randrange(0, outn) if grows else outn + rng.choice([0, 0, 3])
+                k = scen("%s_prefixlen_%s" % (op.split(".")[1], "grows" if grows else "fits"))
+                cmds.append(dict(sc=k, op="gcm.aead", h="a", key=key_, noncesize=len(nonce), tagsize=ts, path="asm"))
+                d = dict(sc=k, op=op, h="a", nonce=nonce, aad=aad, prefix=[1 + (i * 7 + plen) % 255 for i in range(plen)],
+                         spare=spare, alias="none", repeat=True, j="b")
+                d["pt" if op == "gcm.seal" else "ct"] = inp
+                cmds.append(d)
     # Sum follows the same append rule
     for L in ([0, 55, 64, 100] if q else range(0, 130, 3)):
         for inlen, spare in ((0, 0), (5, 0), (5, 31), (5, 32), (0, 32), (7, 100)):
